@@ -651,7 +651,39 @@ int cmdShrink(int argc, char** argv) {
 
 } // namespace
 
+static int g_savedOut = -1, g_savedErr = -1, g_nullFd = -1, g_silenceDepth = 0;
+
+Silence::Silence() {
+  if (getenv("VSIM_VERBOSE")) return;
+  if (g_silenceDepth++ > 0) return;
+  fflush(stdout);
+  fflush(stderr);
+  if (g_nullFd < 0) g_nullFd = open("/dev/null", O_WRONLY);
+  if (g_savedOut < 0) g_savedOut = dup(1);
+  if (g_savedErr < 0) g_savedErr = dup(2);
+  dup2(g_nullFd, 1);
+  dup2(g_nullFd, 2);
+}
+
+Silence::~Silence() {
+  if (getenv("VSIM_VERBOSE")) return;
+  if (--g_silenceDepth > 0) return;
+  unsilence();
+}
+
+void unsilence() {
+  if (g_savedOut < 0) return;
+  fflush(stdout);
+  fflush(stderr);
+  dup2(g_savedOut, 1);
+  dup2(g_savedErr, 2);
+  g_silenceDepth = 0;
+}
+
+extern "C" void vsim_unsilence() { unsilence(); }
+
 void fatal_result(const RunResult& r) {
+  unsilence();
   switch (g_mode) {
   case MODE_CHILD:
     writeAll(g_childFd, r.toJson().dump());
